@@ -5,36 +5,348 @@ Extensions: range of `ncomp` (behind C20), the split layers of a group are as fa
 components when nothing was re-merged (second clause of C06).
 -/
 namespace Ampy
+open Lay
+
+/-! ### helpers: the tail of `ncompFromGmm`, one step of the layering loop in full detail -/
+
+/-- The tail of `ncomp_from_gmm` was entered on an existing fit, reports at most as many components as
+there are fits, and its count is either 1 or the (asserted) number of distinct ids. -/
+theorem gmmTail_range {α} (K : Kern) (P : PPrms α) (q : Rat) (hK : KernOK K q) (vals sc : List Rat)
+    (m : Nat) (minSep : Rat) (best n : Nat) (ids : List Nat)
+    (h : gmmTail K P vals minSep ((List.range m).map fun i => K.gmm P.gmmScores sc (i + 1)) best = .ok (n, ids)) :
+    0 < m ∧ n ≤ m ∧ (n = 1 ∨ ids.eraseDups.length = n) := by
+  have _ := hK
+  unfold gmmTail at h
+  split at h
+  · cases h
+  · rename_i f hf
+    rw [List.getElem?_map] at hf
+    obtain ⟨i, hi, rfl⟩ := Option.map_eq_some_iff.mp hf
+    have hbm : best < m := by
+      have := (List.getElem?_eq_some_iff.mp hi).1
+      simpa using this
+    simp only at h
+    split_ifs at h with h1
+    · cases h
+      exact ⟨by omega, by omega, .inl rfl⟩
+    · simp only [bind, Except.bind, pure, Except.pure] at h
+      split at h
+      · cases h
+      · rename_i bases hb
+        have hle := remerge_le minSep (applyPerm (K.argsort bases) bases) (K.argsort bases)
+          (K.gmm P.gmmScores sc (i + 1)).labels (best + 1)
+        generalize remerge minSep (applyPerm (K.argsort bases) bases) (K.argsort bases)
+          (K.gmm P.gmmScores sc (i + 1)).labels (best + 1) = rm at h hle
+        split_ifs at h with h2
+        cases h
+        exact ⟨by omega, by omega, .inr (not_not.mp h2)⟩
+
+theorem eraseDups_nat_pos (l : List Nat) (h : l ≠ []) : 1 ≤ (l.eraseDups).length := by
+  cases l with
+  | nil => exact absurd rfl h
+  | cons a t =>
+    rw [List.eraseDups_cons, List.length_cons]
+    omega
 
 /-- `ncomp_from_gmm` reports between 1 and `ncompMax` components. -/
 theorem ncompFromGmm_range {α} (K : Kern) (P : PPrms α) (hK : KernOK K P.basePerc) (vals : List Rat) (m : Nat)
     (minSep : Rat) (n : Nat) (ids : List Nat) (hm : 1 ≤ m) (h : ncompFromGmm K P vals m minSep = .ok (n, ids)) :
     1 ≤ n ∧ n ≤ m := by
-  sorry
+  rcases ncompFromGmm_cases K P vals m minSep (n, ids) h with h | ⟨best, h⟩
+  · cases h
+    exact ⟨le_refl _, hm⟩
+  · obtain ⟨h0, h1, h2⟩ := gmmTail_range K P _ hK vals _ _ minSep best n ids h
+    obtain ⟨hl, _, _⟩ := gmmTail_spec K P _ hK vals _ _ minSep best n ids h
+    refine ⟨?_, by omega⟩
+    rcases h2 with h2 | h2
+    · omega
+    · have hv : vals ≠ [] := by
+        rintro rfl
+        simp at h0
+      have hil : ids ≠ [] := by
+        rintro rfl
+        have hl2 : (gmmScaled P vals).length = vals.length := gmmScaled_length P.gmmRescale vals
+        rw [hl2] at hl
+        exact hv (List.length_eq_zero_iff.mp hl.symm)
+      have := eraseDups_nat_pos ids hil
+      omega
+/-- A successful step with full detail. -/
+theorem layerStep_full {α} (K : Kern) (P : PPrms α) (data : List (Hit α)) (gids : List Int) (groups : Table)
+    (lids : List (Option Int)) (ncomps : List Int) (ind : Nat) (g : Row) (hgi : groups[ind]? = some g)
+    (st' : List (Option Int) × List Int)
+    (h : layerStep K P data gids groups (lids, ncomps) ind = .ok st') :
+    st' = (lids, ncomps ++ [-1]) ∨
+    (∃ (n : Nat) (ids : List Nat) (minSep : Rat),
+      minSepFor P.toPrms g.base = .ok minSep ∧
+      30 ≤ (grpHs data (grpPos K data gids g.cid)).length ∧
+      ncompFromGmm K P (grpHs data (grpPos K data gids g.cid))
+        (min ((grpHs data (grpPos K data gids g.cid)).eraseDups).length 3) minSep = .ok (n, ids) ∧
+      ((1 < n ∧ st' = (writeIds (lidOffset gids) ind lids ((grpPos K data gids g.cid).zip ids),
+          ncomps ++ [(n : Int)])) ∨
+       (n ≤ 1 ∧ st' = (lids, ncomps ++ [(n : Int)])))) := by
+  unfold layerStep at h
+  simp only [hgi, bind, Except.bind, pure, Except.pure] at h
+  split at h
+  · cases h
+    exact .inl rfl
+  · rename_i hc
+    simp only [Bool.or_eq_true, decide_eq_true_eq, not_or, not_lt] at hc
+    split at h
+    · cases h
+    · rename_i minSep hms
+      split at h
+      · cases h
+      · rename_i r hr
+        obtain ⟨n, ids⟩ := r
+        simp only at h
+        split at h
+        · rename_i hn
+          cases h
+          exact .inr ⟨n, ids, minSep, hms, hc.1.2, hr, .inl ⟨hn, rfl⟩⟩
+        · rename_i hn
+          cases h
+          exact .inr ⟨n, ids, minSep, hms, hc.1.2, hr, .inr ⟨by omega, rfl⟩⟩
 
 /-- The `ncomp` column written by `find_layers` only holds -1, 1, 2 or 3. -/
 theorem layerIds_ncomp_range {α} [DecidableEq α] (K : Kern) (P : PPrms α) (hK : KernOK K P.basePerc)
     (data : List (Hit α)) (gids : List Int) (groups : Table) (lids ncomps : List Int)
     (h : layerIds K P data gids groups = .ok (lids, ncomps)) :
     ∀ k ∈ ncomps, k = -1 ∨ k = 1 ∨ k = 2 ∨ k = 3 := by
-  sorry
+  obtain ⟨l0, hf, _⟩ := layerIds_ok K P data gids groups lids ncomps h
+  refine foldlM_range_inv _ (fun _ (s : List (Option Int) × List Int) =>
+      ∀ k ∈ s.2, k = -1 ∨ k = 1 ∨ k = 2 ∨ k = 3) _ groups.length (fun k hk => by cases hk)
+    ?_ groups.length (Nat.le_refl _) (l0, ncomps) hf
+  rintro k ⟨l, nc⟩ s' hk hI hs
+  have hgk : groups[k]? = some groups[k] := List.getElem?_eq_getElem hk
+  simp only at hI
+  have hadd : ∀ x : Int, (x = -1 ∨ x = 1 ∨ x = 2 ∨ x = 3) →
+      ∀ y ∈ nc ++ [x], y = -1 ∨ y = 1 ∨ y = 2 ∨ y = 3 := by
+    intro x hx y hy
+    rcases List.mem_append.mp hy with hy | hy
+    · exact hI y hy
+    · rw [List.mem_singleton.mp hy]
+      exact hx
+  rcases layerStep_full K P data gids groups l nc k _ hgk s' hs with
+    rfl | ⟨n, ids, minSep, _, h30, hgmm, hcase⟩
+  · exact hadd (-1) (.inl rfl)
+  · have hne : grpHs data (grpPos K data gids groups[k].cid) ≠ [] := by
+      intro he
+      rw [he] at h30
+      simp at h30
+    have hm : 1 ≤ min ((grpHs data (grpPos K data gids groups[k].cid)).eraseDups).length 3 := by
+      have := eraseDups_length_pos _ hne
+      omega
+    obtain ⟨h1, h2⟩ := ncompFromGmm_range K P hK _ _ minSep n ids hm hgmm
+    have hx : ((n : Int) = -1 ∨ (n : Int) = 1 ∨ (n : Int) = 2 ∨ (n : Int) = 3) := by omega
+    rcases hcase with ⟨_, rfl⟩ | ⟨_, rfl⟩ <;> exact hadd _ hx
 
 /-- After `run`, every group's `ncomp` is -1, 1, 2 or 3 (the keys of the plot's symbol table). -/
 theorem run_ncomp_range {α} [DecidableEq α] (K : Kern) (P : PPrms α) (hK : KernOK K P.basePerc)
     (checked : List (Hit α)) (c : Chunk α) (h : run K P checked = .ok c) (gr : Table) (hg : c.groups = some gr) :
     ∀ g ∈ gr, g.ncomp = some (-1) ∨ g.ncomp = some 1 ∨ g.ncomp = some 2 ∨ g.ncomp = some 3 := by
-  sorry
-
+  obtain ⟨_, _, sids, sl, gids, iso, gr₀, lids, nc, lay, hs, hsl, hgi, hgr₀, hli, hlay, e1, e2, e3, e4, e5, e6⟩ :=
+    run_parts K P checked c h
+  obtain rfl : setNcomp gr₀ nc = gr := Option.some.inj (e5.symm.trans hg)
+  have hlen := layerIds_ncomps_length K P c.data gids gr₀ lids nc hli
+  have hrange := layerIds_ncomp_range K P hK c.data gids gr₀ lids nc hli
+  intro g hgm
+  obtain ⟨ind, hind⟩ := List.getElem?_of_mem hgm
+  obtain ⟨r₀, hr₀, rfl⟩ := setNcomp_getElem? gr₀ nc ind g hind
+  have hi : ind < gr₀.length := (List.getElem?_eq_some_iff.mp hr₀).1
+  have hi' : ind < nc.length := hlen ▸ hi
+  have hnc : nc.getD ind (-1) = nc[ind] := by
+    rw [List.getD_eq_getElem?_getD, List.getElem?_eq_getElem hi']
+    rfl
+  have := hrange nc[ind] (List.getElem_mem hi')
+  simp only [hnc]
+  rcases this with h | h | h | h <;> rw [h] <;> simp
 /-- The heights of the hits of group `cid` in the time order returned by the sort (what `find_layers`
 hands to `ncomp_from_gmm`). -/
 def groupHeights {α} (K : Kern) (data : List (Hit α)) (gids : List Int) (cid : Int) : List Rat :=
   ((K.dtOrder (data.map (·.dt))).filter fun i => gids[i]? == some cid).filterMap fun i => (data[i]?).bind (·.height)
 
-/-- When group number `ind` of the table is split in `n ≥ 2` layers and no ceilometer is excluded, the
-values handed to `calc_base_height` for the layer `off + 10·ind + k` at report time are exactly the
-values of mixture component `k` in the order seen by `ncomp_from_gmm`: report-time base = decision-time
-base (this is what the repair of F2b establishes, for every row order and look-back). -/
-theorem layer_selection_eq_component {α} [DecidableEq α] (K : Kern) (P : PPrms α) (hK : KernOK K P.basePerc)
+theorem groupHeights_eq {α} (K : Kern) (data : List (Hit α)) (gids : List Int) (cid : Int) :
+    groupHeights K data gids cid = grpHs data (grpPos K data gids cid) := rfl
+
+/-! ### list lemmas -/
+
+theorem filterMap_filter_of_none {β γ} (p : β → Bool) (F : β → Option γ) (l : List β)
+    (h : ∀ x ∈ l, p x = false → F x = none) : l.filterMap F = (l.filter p).filterMap F := by
+  induction l with
+  | nil => rfl
+  | cons a t ih =>
+    have iht := ih (fun x hx => h x (List.mem_cons_of_mem _ hx))
+    cases hp : p a with
+    | true =>
+      rw [List.filter_cons_of_pos hp, List.filterMap_cons, List.filterMap_cons, iht]
+    | false =>
+      rw [List.filter_cons_of_neg (by simp [hp]), List.filterMap_cons, h a List.mem_cons_self hp, iht]
+
+theorem filterMap_zip_sel {β} (hgt F : Nat → Option β) (k : Nat) : ∀ (pos ids : List Nat),
+    pos.length = ids.length → (∀ i ∈ pos, (hgt i).isSome = true) →
+    (∀ j (hj : j < pos.length) (hj2 : j < ids.length), F pos[j] = if ids[j] = k then hgt pos[j] else none) →
+    pos.filterMap F = ((pos.filterMap hgt).zip ids).filterMap fun (v, l) => if l = k then some v else none := by
+  intro pos
+  induction pos with
+  | nil => intro ids _ _ _; rfl
+  | cons a t ih =>
+    intro ids hlen hsome hF
+    cases ids with
+    | nil => simp at hlen
+    | cons b u =>
+      obtain ⟨y, hy⟩ := Option.isSome_iff_exists.mp (hsome a List.mem_cons_self)
+      have h0 := hF 0 (by simp) (by simp)
+      simp only [List.getElem_cons_zero] at h0
+      have iht := ih u (by simpa using hlen) (fun i hi => hsome i (List.mem_cons_of_mem _ hi))
+        (fun j hj hj2 => by
+          have := hF (j + 1) (by simpa using hj) (by simpa using hj2)
+          simpa using this)
+      rw [List.filterMap_cons, List.filterMap_cons, hy, h0, hy]
+      simp only [List.zip_cons_cons, List.filterMap_cons]
+      by_cases hb : b = k
+      · simp only [hb, if_true]
+        rw [iht]
+      · simp only [hb, if_false]
+        rw [iht]
+
+/-! ### the selection without exclusions -/
+
+theorem selectSorted_noexcl {α} [DecidableEq α] (K : MetK) (P : Prms α) (hex : P.exclude = [])
+    (data : List (Hit α)) (lids : List Int) (L : Int) :
+    selectSorted K data (baseMask P data lids L) =
+      (K.dtOrder (data.map (·.dt))).filterMap fun i =>
+        if lids[i]? = some L then (data[i]?).bind (·.height) else none := by
+  unfold selectSorted baseMask
+  simp only [hex, ne_eq, not_true_eq_false, if_false]
+  apply List.filterMap_congr
+  intro i _
+  have : ((lids.map (· == L)).getD i false = true) ↔ lids[i]? = some L := by
+    rw [getD_true_iff, map_beq_getElem?]
+    constructor
+    · rintro ⟨h', he⟩
+      rw [List.getElem?_eq_getElem h', he]
+    · intro he
+      obtain ⟨h', he⟩ := List.getElem?_eq_some_iff.mp he
+      exact ⟨h', he⟩
+  simp only [this]
+
+/-! ### the rows of the split group -/
+
+def PInv {α} (K : Kern) (data : List (Hit α)) (gids : List Int) (ind : Nat) (cid : Int) (n : Nat)
+    (ids : List Nat) (k : Nat) (st : List (Option Int) × List Int) : Prop :=
+  ind < k → st.2[ind]? = some (n : Int) →
+    30 ≤ (grpHs data (grpPos K data gids cid)).length ∧
+    ∀ j (hj : j < (grpPos K data gids cid).length) (hj2 : j < ids.length),
+      st.1[(grpPos K data gids cid)[j]]? = some (some (lidOffset gids + 10 * (ind : Int) + (ids[j] : Int)))
+
+theorem PInv_step {α} (K : Kern) (P : PPrms α) (data : List (Hit α)) (q : Rat) (hK : KernOK K q)
+    (gids : List Int) (groups : Table) (hg : IdsExact data gids) (hcid : (groups.map (·.cid)).Nodup)
+    (ind : Nat) (g : Row) (hgi : groups[ind]? = some g) (n : Nat) (hn2 : 2 ≤ n)
+    (minSep : Rat) (hms : minSepFor P.toPrms g.base = .ok minSep) (ids : List Nat)
+    (hgmm : ncompFromGmm K P (grpHs data (grpPos K data gids g.cid))
+              (min ((grpHs data (grpPos K data gids g.cid)).eraseDups).length 3) minSep = .ok (n, ids))
+    (k : Nat) (st st' : List (Option Int) × List Int) (hk : k < groups.length)
+    (hI : LInv data gids groups k st) (hP : PInv K data gids ind g.cid n ids k st)
+    (h : layerStep K P data gids groups st k = .ok st') : PInv K data gids ind g.cid n ids (k + 1) st' := by
+  obtain ⟨lids, ncomps⟩ := st
+  have hnl : ncomps.length = k := hI.nlen
+  have hll : lids.length = data.length := hI.len
+  have hgk : groups[k]? = some groups[k] := List.getElem?_eq_getElem hk
+  intro hlt hnc
+  by_cases hik : ind < k
+  · have hkeep : ∀ x : Int, (ncomps ++ [x])[ind]? = some (n : Int) → ncomps[ind]? = some (n : Int) := by
+      intro x hx
+      rwa [List.getElem?_append_left (by omega)] at hx
+    rcases layerStep_full K P data gids groups lids ncomps k _ hgk st' h with
+      rfl | ⟨n', ids', minSep', _, _, _, ⟨_, rfl⟩ | ⟨_, rfl⟩⟩
+    · exact hP hik (hkeep _ hnc)
+    · obtain ⟨h30, hall⟩ := hP hik (hkeep _ hnc)
+      refine ⟨h30, fun j hj hj2 => ?_⟩
+      simp only
+      rw [writeIds_of_not_mem]
+      · exact hall j hj hj2
+      · intro p hp hpi
+        have h1 := ((mem_grpPos K data gids _ _).mp (List.of_mem_zip hp).1).2
+        have h2 := ((mem_grpPos K data gids _ _).mp (List.getElem_mem hj)).2
+        rw [hpi, h2] at h1
+        have := nodup_cid hcid hgi hgk (Option.some.inj h1)
+        omega
+    · exact hP hik (hkeep _ hnc)
+  · have hke : k = ind := by omega
+    subst hke
+    rw [hgk] at hgi
+    cases hgi
+    have hlast : ∀ x : Int, (ncomps ++ [x])[k]? = some (n : Int) → x = (n : Int) := by
+      intro x hx
+      rw [← hnl] at hx
+      simpa using hx
+    rcases layerStep_full K P data gids groups lids ncomps k _ hgk st' h with
+      rfl | ⟨n', ids', minSep', hms', h30, hgmm', ⟨_, rfl⟩ | ⟨hle, rfl⟩⟩
+    · have := hlast _ hnc
+      omega
+    · rw [hms] at hms'
+      cases hms'
+      rw [hgmm] at hgmm'
+      cases hgmm'
+      refine ⟨h30, fun j hj hj2 => ?_⟩
+      apply writeIds_of_mem _ _ _ _ _ (grpPos_nodup K q hK data gids _) j hj hj2
+      have h2 := ((mem_grpPos K data gids _ _).mp (List.getElem_mem hj)).2
+      have := (List.getElem?_eq_some_iff.mp h2).1
+      have := hg.len
+      omega
+    · have := hlast _ hnc
+      omega
+
+/-- The rows of a group split in `n ≥ 2` layers carry, at the end, the component ids returned by the
+mixture call, in the order of the group's positions. -/
+theorem split_rows {α} [DecidableEq α] (K : Kern) (P : PPrms α) (q : Rat) (hK : KernOK K q)
+    (data : List (Hit α)) (gids : List Int) (groups : Table) (hg : IdsExact data gids)
+    (hcid : (groups.map (·.cid)).Nodup)
+    (lids ncomps : List Int) (h : layerIds K P data gids groups = .ok (lids, ncomps))
+    (ind : Nat) (g : Row) (hgi : groups[ind]? = some g) (n : Nat) (hn : ncomps[ind]? = some (n : Int)) (hn2 : 2 ≤ n)
+    (minSep : Rat) (hms : minSepFor P.toPrms g.base = .ok minSep) (ids : List Nat)
+    (hgmm : ncompFromGmm K P (grpHs data (grpPos K data gids g.cid))
+              (min ((grpHs data (grpPos K data gids g.cid)).eraseDups).length 3) minSep = .ok (n, ids)) :
+    30 ≤ (grpHs data (grpPos K data gids g.cid)).length ∧
+    ∀ j (hj : j < (grpPos K data gids g.cid).length) (hj2 : j < ids.length),
+      lids[(grpPos K data gids g.cid)[j]]? = some (lidOffset gids + 10 * (ind : Int) + (ids[j] : Int)) := by
+  obtain ⟨l0, hf, rfl⟩ := layerIds_ok K P data gids groups lids ncomps h
+  have hind : ind < groups.length := (List.getElem?_eq_some_iff.mp hgi).1
+  have key := foldlM_range_inv _
+    (fun k s => LInv data gids groups k s ∧ PInv K data gids ind g.cid n ids k s) _ groups.length
+    ⟨LInv_init data gids groups, fun hk => absurd hk (Nat.not_lt_zero _)⟩
+    (fun k s s' hk hI hs => ⟨LInv_step K P data q hK gids groups hg k s s' hk hI.1 hs,
+      PInv_step K P data q hK gids groups hg hcid ind g hgi n hn2 minSep hms ids hgmm k s s' hk hI.1 hI.2 hs⟩)
+    groups.length (Nat.le_refl _) _ hf
+  obtain ⟨h30, hall⟩ := key.2 hind hn
+  refine ⟨h30, fun j hj hj2 => ?_⟩
+  have h2 := ((mem_grpPos K data gids _ _).mp (List.getElem_mem hj)).2
+  exact (finCol_getElem? l0 gids _ _).mpr ⟨_, g.cid, hall j hj hj2, h2, rfl⟩
+
+/-- A row carrying the layer id `off + 10·ind + k` (`k < 10`) belongs to group number `ind`. -/
+theorem lid_row_group {α} [DecidableEq α] (K : Kern) (P : PPrms α) (q : Rat) (hK : KernOK K q)
+    (data : List (Hit α)) (gids : List Int) (groups : Table) (hg : IdsExact data gids)
+    (lids ncomps : List Int) (h : layerIds K P data gids groups = .ok (lids, ncomps))
+    (ind : Nat) (g : Row) (hgi : groups[ind]? = some g) (k : Nat) (hk : k < 10) (i : Nat)
+    (hi : lids[i]? = some (lidOffset gids + 10 * (ind : Int) + (k : Int))) : gids[i]? = some g.cid := by
+  obtain ⟨l0, hf, rfl⟩ := layerIds_ok K P data gids groups lids ncomps h
+  have hI := loop_linv K P data q hK gids groups hg _ hf
+  obtain ⟨l, c, _, hc, _⟩ := (finCol_getElem? l0 gids i _).mp hi
+  have hlt := lidOffset_gt gids c (List.mem_of_getElem? hc)
+  rcases fin_class hI i _ c hi hc with e | ⟨ind', c', gr, a, b, _, d, e⟩
+  · omega
+  · have : ind' = ind := by omega
+    subst this
+    rw [a] at hgi
+    cases hgi
+    rw [hc, b]
+
+/-- Report-time base = decision-time base (the hypothesis `k < 10` is necessary: for `k ≥ 10` the id
+`off + 10·ind + k` belongs to a later group of the table): when group number `ind`
+of the table is split in `n ≥ 2` layers and no ceilometer is excluded, the values handed to
+`calc_base_height` for the layer `off + 10·ind + k` at report time are exactly the values of mixture
+component `k` in the order seen by `ncomp_from_gmm`. -/
+theorem layer_selection_eq_component' {α} [DecidableEq α] (K : Kern) (P : PPrms α) (hK : KernOK K P.basePerc)
     (data : List (Hit α)) (gids : List Int) (groups : Table) (hg : IdsExact data gids)
     (hcid : (groups.map (·.cid)).Nodup) (hex : P.exclude = [])
     (lids ncomps : List Int) (h : layerIds K P data gids groups = .ok (lids, ncomps))
@@ -43,9 +355,69 @@ theorem layer_selection_eq_component {α} [DecidableEq α] (K : Kern) (P : PPrms
     (ids : List Nat)
     (hgmm : ncompFromGmm K P (groupHeights K data gids g.cid)
               (min ((groupHeights K data gids g.cid).eraseDups).length 3) minSep = .ok (n, ids))
-    (k : Nat) :
+    (k : Nat) (hk : k < 10) :
     selectSorted K.toMetK data (baseMask P.toPrms data lids (lidOffset gids + 10 * (ind : Int) + (k : Int))) =
       ((groupHeights K data gids g.cid).zip ids).filterMap fun (v, l) => if l = k then some v else none := by
-  sorry
+  rw [groupHeights_eq] at hgmm ⊢
+  obtain ⟨h30, hrows⟩ := split_rows K P _ hK data gids groups hg hcid lids ncomps h ind g hgi n hn hn2
+    minSep hms ids hgmm
+  have hne : grpHs data (grpPos K data gids g.cid) ≠ [] := by
+    intro he
+    rw [he] at h30
+    simp at h30
+  have h0 := grp_cid_nonneg K hg _ hne
+  have hlen := grpHs_length K hg _ h0
+  obtain ⟨hil, _, _⟩ := ncompFromGmm_spec K P _ hK _ _ _ _ _ hgmm
+  rw [selectSorted_noexcl K.toMetK P.toPrms hex,
+    filterMap_filter_of_none (fun i => gids[i]? == some g.cid)]
+  · show (grpPos K data gids g.cid).filterMap _ = _
+    unfold grpHs
+    apply filterMap_zip_sel
+    · rw [← hlen, hil]
+    · intro i hi
+      obtain ⟨y, hy⟩ := exact_height hg i g.cid ((mem_grpPos K data gids g.cid i).mp hi).2 h0
+      rw [hy]
+      rfl
+    · intro j hj hj2
+      rw [hrows j hj hj2]
+      by_cases hjk : ids[j] = k
+      · rw [if_pos hjk, if_pos (by rw [hjk])]
+      · rw [if_neg hjk, if_neg]
+        intro he
+        have := Option.some.inj he
+        omega
+  · intro i _ hp
+    rw [if_neg]
+    intro hi
+    have := lid_row_group K P _ hK data gids groups hg lids ncomps h ind g hgi k hk i hi
+    rw [this] at hp
+    simp at hp
+/-- The same for the components actually reported (`k < n ≤ 3`). -/
+theorem layer_selection_eq_component_lt {α} [DecidableEq α] (K : Kern) (P : PPrms α) (hK : KernOK K P.basePerc)
+    (data : List (Hit α)) (gids : List Int) (groups : Table) (hg : IdsExact data gids)
+    (hcid : (groups.map (·.cid)).Nodup) (hex : P.exclude = [])
+    (lids ncomps : List Int) (h : layerIds K P data gids groups = .ok (lids, ncomps))
+    (ind : Nat) (g : Row) (hgi : groups[ind]? = some g) (n : Nat) (hn : ncomps[ind]? = some (n : Int)) (hn2 : 2 ≤ n)
+    (minSep : Rat) (hms : minSepFor P.toPrms g.base = .ok minSep)
+    (ids : List Nat)
+    (hgmm : ncompFromGmm K P (groupHeights K data gids g.cid)
+              (min ((groupHeights K data gids g.cid).eraseDups).length 3) minSep = .ok (n, ids))
+    (k : Nat) (hk : k < n) :
+    selectSorted K.toMetK data (baseMask P.toPrms data lids (lidOffset gids + 10 * (ind : Int) + (k : Int))) =
+      ((groupHeights K data gids g.cid).zip ids).filterMap fun (v, l) => if l = k then some v else none := by
+  have hgmm' := hgmm
+  rw [groupHeights_eq] at hgmm'
+  obtain ⟨h30, _⟩ := split_rows K P _ hK data gids groups hg hcid lids ncomps h ind g hgi n hn hn2
+    minSep hms ids hgmm'
+  have hne : grpHs data (grpPos K data gids g.cid) ≠ [] := by
+    intro he
+    rw [he] at h30
+    simp at h30
+  have hm : 1 ≤ min ((grpHs data (grpPos K data gids g.cid)).eraseDups).length 3 := by
+    have := eraseDups_length_pos _ hne
+    omega
+  obtain ⟨_, hle⟩ := ncompFromGmm_range K P hK _ _ minSep n ids hm hgmm'
+  exact layer_selection_eq_component' K P hK data gids groups hg hcid hex lids ncomps h ind g hgi n hn hn2
+    minSep hms ids hgmm k (by omega)
 
 end Ampy
